@@ -9,6 +9,8 @@ CONSTANTS
   Recheck = FALSE
   Post = "none"
   Record = "always"
+  Breaks = FALSE
+  Blind = FALSE
   Export = FALSE
 INVARIANTS TypeOK
 PROPERTIES NeverForEvaluated Converges
